@@ -16,7 +16,7 @@ from symx import bv
 PROPERTY = "C20"
 
 META = {
-    "bounds": "ROM offsets 0 <= o < 2^22 (4 MiB) for the three modes; (base, p) with base, p >= 0 and base + p < 2^22; 16-bit pointer bytes all values, base in [0,2^24)",
+    "bounds": "ROM offsets 0 <= o < 2^22 (4 MiB) for the three modes; (base, p) with base, p >= 0 and base + p < 2^22; 16-bit pointer bytes all values (records of 2, 3 and 4 bytes, all byte values), base in [0,2^24)",
     "outside": ["offsets >= 4 MiB", "negative inputs", "snes_to_rom on addresses that are not images of rom_to_snes"],
     "oracle": "textbook LoROM (bank = o >> 15 [+0x80], addr = 0x8000 | (o & 0x7FFF)) and HiROM (0xC00000 + o) formulas; Bus.get_address(x).physical of the assembler's own built-in buses",
     "stubs": ["warnings.warn executes natively (DeprecationWarning filtered)", "int(a / c) modelled as truncating exact division + QF_BVFP lemma per divisor (preflight)"],
@@ -34,6 +34,9 @@ def jobs(tier, seed):
     out.append({"id": "snes_to_rom/direct", "kind": "s2r"})
     out.append({"id": "long_low_rom_pointer", "kind": "llrp"})
     out.append({"id": "base_relative_16bits", "kind": "br16"})
+    # records wider than the pointer (Script.read_pointers(..., length=3|4, formula)): the 16-bit value is the first two bytes
+    out.append({"id": "base_relative_16bits/3-byte-record", "kind": "br16", "width": 3})
+    out.append({"id": "base_relative_16bits/4-byte-record", "kind": "br16", "width": 4})
     out.append({"id": "pointer-converters-are-independent", "kind": "llrp2"})
     return out
 
@@ -82,14 +85,17 @@ def run(spec, cx):
         from script.formulas import base_relative_16bits_pointer_formula
 
         base = cx.int("base", 0, 0xFFFFFF)
-        v0, v1 = cx.int("v0", 0, 255), cx.int("v1", 0, 255)
+        vs = [cx.int(f"v{i}", 0, 255) for i in range(spec.get("width", 2))]
         if cx.symbolic:
             from symx import mkbytes
 
-            v = mkbytes([v0, v1])
+            v = mkbytes(vs)
         else:
-            v = bytes([v0, v1])
-        return ("br16", base_relative_16bits_pointer_formula(base)(v))
+            v = bytes(vs)
+        try:
+            return ("br16", base_relative_16bits_pointer_formula(base)(v))
+        except (ValueError, IndexError, TypeError) as e:
+            return ("br16-rejected", type(e).__name__)
     raise ValueError(kind)
 
 
@@ -150,6 +156,9 @@ def check(spec, cx, out):
         conds += [bv(out[6]) == b1 + 0x1234, bv(out[7]) == b2 + 0x1234, bv(out[8]) == b1 + 0x1234]
         res.append(("each-converter-depends-only-on-its-own-base", z3.And(*conds)))
         return res
+    if kind == "br16-rejected":
+        # only a record that is not exactly a 16-bit pointer may be refused
+        return [("two-byte-record-decoded", z3.BoolVal(spec.get("width", 2) != 2))]
     if kind == "br16":
         res.append(("decode-le16-plus-base", bv(out[1]) == cx.t("v0") + (cx.t("v1") << 8) + cx.t("base")))
         return res
